@@ -307,8 +307,97 @@ Fixpoint auth_spec (strict up : bool) (store cached : list (nat * nat)) (ops : l
 
 Definition auth_spec_ok (a : acase) : bool := negb (a_hung a) && auth_spec (a_strict a) true [] [] (a_ops a) (a_codes a) (a_lookups a) (a_clookups a).
 
-Inductive case := CC (c : ccase) | CJ (j : jcase) | CA (a : acase).
+(* ---- overlapping Takes with gated fetch functions, on one or several cache instances (kind flight) ----
+   keys are indices into the driver's alphabet (which contains "", a very long key, NUL, unicode) *)
+Inductive fstep :=
+| FTake (id c k v : nat) (fail gate : bool)     (* Take(k, fetch) on cache c started; gate: fetch waits for FRelease id *)
+| FRelease (id : nat)
+| FGet (c k : nat).
+
+Record ftake := mkft { ft_id : nat; ft_fetched : bool; ft_res : option nat }.   (* res None: an error was returned *)
+Record fcase := mkf { f_steps : list fstep; f_takes : list ftake; f_gets : list (option nat); f_hung : bool }.
+
+Section Flight.
+  Variable S : Type.                                         (* one cache *)
+  Variable s0 : S.
+  Variable look : S -> nat -> option nat.
+  Variable take : S -> nat -> option nat -> S * option nat.  (* a Take that finds the key missing: fetch result -> value handed out *)
+
+  (* an open flight: (owner id, cache, key, fetch outcome, ids parked behind it) *)
+  Definition flight := (nat * nat * nat * option nat * list nat)%type.
+  Record fstate := mkfs { fs_caches : list (nat * S); fs_open : list flight; fs_done : list ftake }.
+
+  Definition cache_of (st : fstate) (c : nat) : S := match alookup Nat.eqb c (fs_caches st) with Some x => x | None => s0 end.
+
+  Definition finish (st : fstate) (f : flight) : fstate :=
+    match f with
+    | (id, c, k, out, parked) =>
+        let (s', r) := take (cache_of st c) k out in
+        mkfs (aset Nat.eqb c s' (fs_caches st)) (fs_open st)
+             (fs_done st ++ mkft id true r :: map (fun p => mkft p false r) parked)     (* all of them get its result *)
+    end.
+
+  Definition fl_step (st : fstate) (x : fstep) (gets : list (option nat)) : fstate * list (option nat) :=
+    match x with
+    | FGet c k => (st, gets ++ [look (cache_of st c) k])
+    | FTake id c k v fail gate =>
+        match look (cache_of st c) k with
+        | Some x => (mkfs (fs_caches st) (fs_open st) (fs_done st ++ [mkft id false (Some x)]), gets)   (* cached: no fetch *)
+        | None =>
+            let out := if fail then None else Some v in
+            (* sharing is per cache instance and per key -- any key *)
+            if existsb (fun f => match f with (_, c', k', _, _) => (c' =? c) && (k' =? k) end) (fs_open st) then
+              (mkfs (fs_caches st)
+                    (map (fun f => match f with (o, c', k', out', p) =>
+                                     if (c' =? c) && (k' =? k) then (o, c', k', out', p ++ [id]) else f end) (fs_open st))
+                    (fs_done st), gets)
+            else if gate then (mkfs (fs_caches st) (fs_open st ++ [(id, c, k, out, [])]) (fs_done st), gets)
+            else (finish st (id, c, k, out, []), gets)
+        end
+    | FRelease id =>
+        match find (fun f => match f with (o, _, _, _, _) => o =? id end) (fs_open st) with
+        | Some f =>
+            let st' := mkfs (fs_caches st) (filter (fun f => match f with (o, _, _, _, _) => negb (o =? id) end) (fs_open st)) (fs_done st) in
+            (finish st' f, gets)
+        | None => (st, gets)
+        end
+    end.
+
+  Fixpoint fl_run (st : fstate) (xs : list fstep) (gets : list (option nat)) : fstate * list (option nat) :=
+    match xs with
+    | [] => (st, gets)
+    | x :: r => let (st', g') := fl_step st x gets in fl_run st' r g'
+    end.
+
+  (* at the end of the case the driver opens every gate *)
+  Definition fl_final (st : fstate) : fstate := fold_left (fun st f => finish (mkfs (fs_caches st) [] (fs_done st)) f) (fs_open st) st.
+
+  Definition ft_eqb (a b : ftake) : bool :=
+    (ft_id a =? ft_id b) && Bool.eqb (ft_fetched a) (ft_fetched b) && option_eqb Nat.eqb (ft_res a) (ft_res b).
+
+  Definition flight_ok (c : fcase) : bool :=
+    let (st, gets) := fl_run (mkfs [] [] []) (f_steps c) [] in
+    let done := fs_done (fl_final st) in
+    negb (f_hung c) && list_eqb (option_eqb Nat.eqb) gets (f_gets c) &&
+    (length done =? length (f_takes c)) &&
+    forallb (fun o => existsb (ft_eqb o) done) (f_takes c).
+End Flight.
+
+(* model: every cache is the transcribed cache, a missing key goes through the transcribed Take *)
+Definition flight_model_ok : fcase -> bool :=
+  flight_ok (cache unit) (cnew 3600000000000 0 tt)
+            (fun c k => alookup Nat.eqb k (c_data c))
+            (fun c k out => match ctake no_timer k out 3600000000000 c with (c', r, _) => (c', r) end).
+
+(* property: the fetch of a missing key runs once among the overlapping callers of THAT cache and key, all of them
+   get its result, and it is stored only on success *)
+Definition flight_spec_ok : fcase -> bool :=
+  flight_ok (list (nat * nat)) []
+            (fun m k => alookup Nat.eqb k m)
+            (fun m k out => match out with Some v => (aset Nat.eqb k v m, Some v) | None => (m, None) end).
+
+Inductive case := CC (c : ccase) | CJ (j : jcase) | CA (a : acase) | CF (f : fcase).
 Definition model_ok (c : case) : bool :=
-  match c with CC c => cache_model_ok c | CJ j => jitter_model_ok j | CA a => auth_model_ok a end.
+  match c with CC c => cache_model_ok c | CJ j => jitter_model_ok j | CA a => auth_model_ok a | CF f => flight_model_ok f end.
 Definition spec_ok (c : case) : bool :=
-  match c with CC c => cache_spec_ok c | CJ j => jitter_spec_ok j | CA a => auth_spec_ok a end.
+  match c with CC c => cache_spec_ok c | CJ j => jitter_spec_ok j | CA a => auth_spec_ok a | CF f => flight_spec_ok f end.
